@@ -27,6 +27,8 @@ func init() {
 			"every cycle of every unbounded loop of the recursive-descent parser consumes a real (known non-EOF) token before it returns to the loop head, or leaves the loop (consume / consume-or-report summaries with and without a peeked token, report.HasErrors() edges). " +
 			"Not decided: absence of panics on arbitrary bytes, positions inside the input, print∘parse round-trip equality as values, limit accounting (value level), depth of recursion.",
 		Mutants: []Mutant{
+			{Name: "spread flag survives an opening brace (seeded changes C05-1 / C05-11)", File: "v2/pkg/astparser/tokenizer.go", Rule: "C05-R8", Key: "depth-arm-clears-spread-flag:keyword.LBRACE",
+				Old: "\t\t\t\tlocalDepthPeak = localDepth\n\t\t\t}\n\t\t\tlastWasSpread = false\n", New: "\t\t\t\tlocalDepthPeak = localDepth\n\t\t\t}\n"},
 			{Name: "definition keywords reset the field accounting inside selection sets (the repaired defect F26)", File: "v2/pkg/astparser/tokenizer.go", Rule: "C05-R8", Key: "TokenizeWithLimits/identifier-arm-counts-every-field",
 				Old: "\t\t\tif isDefinitionKeyword && localDepth == 0 {", New: "\t\t\tif isDefinitionKeyword {"},
 			{Name: "closing brace of a schema definition written blindly (the repaired defect F22)", File: "v2/pkg/astprinter/astprinter.go", Rule: "C05-R3", Key: "printer-siblings-content/Leave:Schema",
@@ -1637,6 +1639,43 @@ func limitCountsEveryField(r *fw.Run) {
 			}
 		},
 	}
+	// the spread flag means "the previous token was a spread": the arms that open or close a selection set (they change the
+	// selection depth) clear it, so that the first field of `... { f }` is counted
+	nDepthArms := 0
+	fw.WalkAll(fi.Decl.Body, func(nd ast.Node) bool {
+		cc, ok := nd.(*ast.CaseClause)
+		if !ok || cc == arm {
+			return true
+		}
+		changesDepth, clears := false, false
+		for _, stm := range cc.Body {
+			fw.WalkAll(stm, func(m ast.Node) bool {
+				for _, tgt := range fw.WriteTargets(info, m) {
+					if fw.RootObj(info, tgt) == depth {
+						changesDepth = true
+					}
+				}
+				if as, isAs := m.(*ast.AssignStmt); isAs && len(as.Lhs) == 1 && len(as.Rhs) == 1 && fw.RootObj(info, as.Lhs[0]) == spread {
+					if cv, isC := fw.ConstVal(info, as.Rhs[0]); isC && cv == "false" {
+						clears = true
+					}
+				}
+				return true
+			})
+		}
+		if !changesDepth {
+			return true
+		}
+		nDepthArms++
+		label := "arm"
+		if len(cc.List) > 0 {
+			label = types.ExprString(cc.List[0])
+		}
+		r.Check(clears, "C05-R8", fi.Name()+"/depth-arm-clears-spread-flag:"+label, p.Pos(cc.Pos()), "the "+label+" arm clears the spread flag",
+			"the flag that dismisses the identifier after a spread survives the brace: the first field of an inline fragment without type condition (`... { f }`) is taken for the name after the spread and is not counted — 200 such fields pass MaxFields=199")
+		return true
+	})
+	r.Expect("C05-R8", "token arms that change the selection depth", nDepthArms, 2)
 	end := in.RunStmts(arm.Body, nil)
 	r.Check(end == nil || end.Must("accounted"), "C05-R8", fi.Name()+"/identifier-arm-counts-every-field", p.Pos(arm.Pos()), "every path through the identifier arm counts the identifier, or knows it is outside a selection set / the name after a spread",
 		"some identifiers leave the arm uncounted without the depth having been looked at: a field (or alias) that is spelled like a definition keyword — query, mutation, subscription, fragment are legal field names — is not counted and resets the per-definition bookkeeping, so the fields after it are not counted either: `{ query a a a … }` passes ParseWithLimits whatever MaxFields says")
